@@ -26,30 +26,6 @@ Proof.
   repeat eexists.
 Qed.
 
-Lemma C03_rtr_decode_no_panic : never_panics rtr_decode.
-Proof.
-  intros buf. unfold rtr_decode.
-  destruct (len buf <? 8) eqn:H8; [discriminate|].
-  destruct (rtr_header buf H8) as (v & t & s1 & s2 & a & b & c & d & tl & ->).
-  destruct (be32 a b c d <? 8); [discriminate|].
-  destruct (len _ <? be32 a b c d); [discriminate|].
-  destruct (rtr_from_bytes _) as [[m l]|]; discriminate.
-Qed.
-
-Lemma C03_rtr_decode_consumes : consumes_input rtr_decode.
-Proof.
-  intros buf m rest. unfold rtr_decode.
-  destruct (len buf <? 8) eqn:H8; [discriminate|].
-  destruct (rtr_header buf H8) as (v & t & s1 & s2 & a & b & c & d & tl & ->).
-  set (buf := v :: t :: s1 :: s2 :: a :: b :: c :: d :: tl) in *.
-  destruct (be32 a b c d <? 8) eqn:HL; [discriminate|].
-  destruct (len buf <? be32 a b c d) eqn:HB; [discriminate|].
-  destruct (rtr_from_bytes _) as [[m' l]|]; [|discriminate].
-  intro H. injection H as _ <-. split.
-  - rewrite skipn_length. pose proof (len_length buf). lia.
-  - exists (firstn (N.to_nat (be32 a b c d)) buf). symmetry. apply firstn_skipn.
-Qed.
-
 Lemma rtr_length_field_spec buf l :
   rtr_length_field buf = Some l ->
   exists v t s1 s2 a b c d tl, buf = v :: t :: s1 :: s2 :: a :: b :: c :: d :: tl /\ l = be32 a b c d.
@@ -59,49 +35,130 @@ Proof.
   repeat eexists.
 Qed.
 
-Lemma C03_rtr_complete_frame_decided : complete_frame_decided rtr_decode rtr_complete.
-Proof.
-  intros buf (l & Hl & Hle).
-  destruct (rtr_length_field_spec _ _ Hl) as (v & t & s1 & s2 & a & b & c & d & tl & -> & ->).
-  unfold rtr_decode.
-  set (buf := v :: t :: s1 :: s2 :: a :: b :: c :: d :: tl) in *.
-  assert (H8 : (len buf <? 8) = false) by (subst buf; rewrite !len_cons; lia).
-  rewrite H8. subst buf.
-  destruct (be32 a b c d <? 8); [discriminate|].
-  match goal with |- context [if ?c then DNeed else _] => destruct c eqn:HB end; [lia|].
-  destruct (rtr_from_bytes _) as [[m' l]|]; discriminate.
-Qed.
-
-Lemma C03_rtr_need_only_if_incomplete : need_only_if_incomplete rtr_decode rtr_complete.
-Proof.
-  intros buf H (l & Hl & Hle).
-  exact (C03_rtr_complete_frame_decided buf (ex_intro _ l (conj Hl Hle)) H).
-Qed.
-
-(* a decoder call only looks at its own frame *)
 Lemma firstn_app_le {A} n (a b : list A) : (n <= length a)%nat -> firstn n (a ++ b) = firstn n a.
 Proof. intro H. rewrite firstn_app. replace (n - length a)%nat with 0%nat by lia. cbn [firstn]. apply app_nil_r. Qed.
 
 Lemma skipn_app_le {A} n (a b : list A) : (n <= length a)%nat -> skipn n (a ++ b) = skipn n a ++ b.
 Proof. intro H. rewrite skipn_app. replace (n - length a)%nat with 0%nat by lia. reflexivity. Qed.
 
-Definition rtr_body (buf : list N) (l : N) : rtr_res :=
-  if l <? 8 then DErr tt buf else
-  if len buf <? l then DNeed else
-  match rtr_from_bytes (firstn (N.to_nat l) buf) with
-  | Some (m, _) => DMsg m (skipn (N.to_nat l) buf)
-  | None => DErr tt (skipn (N.to_nat l) buf)
+(* one turn of the loop, with the length field named *)
+Definition step_body (src : list N) (l : N) : rtr_step_res :=
+  if l <? 8 then RsDone (DErr tt src) else
+  if len src <? l then RsDone (DNeed src) else
+  match nth_error (firstn (N.to_nat l) src) 1 with
+  | None => RsDone DPanic
+  | Some ty =>
+    if negb (is_used_type ty) then RsSkip (skipn (N.to_nat l) src) else
+    match rtr_from_bytes (firstn (N.to_nat l) src) with
+    | Some (m, _) => RsDone (DMsg m (skipn (N.to_nat l) src))
+    | None => RsDone (DErr tt (skipn (N.to_nat l) src))
+    end
   end.
 
-Lemma rtr_decode_unfold buf :
-  (len buf <? 8) = false ->
-  exists l, rtr_length_field buf = Some l /\ rtr_decode buf = rtr_body buf l.
+Lemma rtr_step_unfold src :
+  (len src <? 8) = false -> exists l, rtr_length_field src = Some l /\ rtr_step src = step_body src l.
 Proof.
-  intro H8. destruct (rtr_header buf H8) as (v & t & s1 & s2 & a & b & c & d & tl & ->).
-  exists (be32 a b c d). split; [reflexivity|].
-  unfold rtr_decode. rewrite H8. reflexivity.
+  intro H8. destruct (rtr_header src H8) as (v & t & s1 & s2 & a & b & c & d & tl & ->).
+  exists (be32 a b c d). split; [reflexivity|]. unfold rtr_step. rewrite H8. reflexivity.
 Qed.
 
+Lemma rtr_step_short src : (len src <? 8) = true -> rtr_step src = RsDone (DNeed src).
+Proof. intro H. unfold rtr_step. rewrite H. reflexivity. Qed.
+
+Lemma rtr_length_field_short src : (len src <? 8) = true -> rtr_length_field src = None.
+Proof.
+  intro H. unfold rtr_length_field.
+  do 8 (destruct src as [|? src]; [reflexivity|]). rewrite !len_cons in H. lia.
+Qed.
+
+(* what one turn can do *)
+Lemma rtr_step_cases src :
+  match rtr_step src with
+  | RsSkip rest => (length rest + 8 <= length src)%nat /\ exists used, src = used ++ rest
+  | RsDone (DMsg m rest) => (length rest + 8 <= length src)%nat /\ exists used, src = used ++ rest
+  | RsDone (DErr _ rest) => exists used, src = used ++ rest
+  | RsDone (DNeed rest) => rest = src /\ ~ rtr_complete src
+  | RsDone DPanic => False
+  end.
+Proof.
+  destruct (len src <? 8) eqn:H8.
+  { rewrite (rtr_step_short _ H8). split; [reflexivity|]. intros (l & Hl & _).
+    rewrite (rtr_length_field_short _ H8) in Hl. discriminate. }
+  destruct (rtr_step_unfold src H8) as (l & Hl & ->). unfold step_body.
+  destruct (l <? 8) eqn:E8; [exists []; reflexivity|].
+  destruct (len src <? l) eqn:El.
+  { split; [reflexivity|]. intros (l' & Hl' & Hle). rewrite Hl in Hl'. injection Hl' as <-. lia. }
+  assert (Hn : (N.to_nat l <= length src)%nat) by (pose proof (len_length src); lia).
+  assert (Hused : exists used, src = used ++ skipn (N.to_nat l) src)
+    by (exists (firstn (N.to_nat l) src); symmetry; apply firstn_skipn).
+  assert (Hlen : (length (skipn (N.to_nat l) src) + 8 <= length src)%nat) by (rewrite skipn_length; lia).
+  destruct (nth_error (firstn (N.to_nat l) src) 1) as [ty|] eqn:Ety.
+  - destruct (negb (is_used_type ty)); [split; assumption|].
+    destruct (rtr_from_bytes _) as [[m l2]|]; [split; assumption|exact Hused].
+  - apply nth_error_None in Ety. rewrite firstn_length in Ety. lia.
+Qed.
+
+(* the properties of the whole loop, by induction on the fuel *)
+Lemma rtr_fuel_spec : forall fuel src, (length src < fuel)%nat ->
+  match rtr_decode_fuel fuel src with
+  | DMsg m rest => (length rest < length src)%nat /\ exists used, src = used ++ rest
+  | DErr _ rest => exists used, src = used ++ rest
+  | DNeed rest => ~ rtr_complete rest /\ (exists used, src = used ++ rest) /\
+                  (rtr_complete src -> (length rest < length src)%nat)
+  | DPanic => False
+  end.
+Proof.
+  induction fuel as [|f IH]; intros src Hf; [lia|].
+  cbn [rtr_decode_fuel]. pose proof (rtr_step_cases src) as Hc.
+  destruct (rtr_step src) as [[m rest|rest|e rest|]|rest].
+  - destruct Hc as [Hl Hu]. split; [lia|exact Hu].
+  - destruct Hc as [-> Hn]. split; [exact Hn|]. split; [exists []; reflexivity|]. intro Hcpl. contradiction.
+  - exact Hc.
+  - exact Hc.
+  - destruct Hc as [Hl (used & Hu)]. specialize (IH rest ltac:(lia)).
+    destruct (rtr_decode_fuel f rest) as [m r2|r2|e r2|].
+    + destruct IH as [Hl2 (u2 & Hu2)]. split; [lia|]. exists (used ++ u2). rewrite <- app_assoc, <- Hu2. exact Hu.
+    + destruct IH as (Hn & (u2 & Hu2) & _). split; [exact Hn|]. split.
+      * exists (used ++ u2). rewrite <- app_assoc, <- Hu2. exact Hu.
+      * intros _. assert (length r2 <= length rest)%nat by (rewrite Hu2, app_length; lia). lia.
+    + destruct IH as (u2 & Hu2). exists (used ++ u2). rewrite <- app_assoc, <- Hu2. exact Hu.
+    + exact IH.
+Qed.
+
+Lemma C03_rtr_decode_no_panic : never_panics rtr_decode.
+Proof.
+  intros buf H. pose proof (rtr_fuel_spec (S (length buf)) buf ltac:(lia)) as Hs.
+  unfold rtr_decode in H. rewrite H in Hs. exact Hs.
+Qed.
+
+Lemma C03_rtr_decode_consumes : consumes_input rtr_decode.
+Proof.
+  intros buf m rest H. pose proof (rtr_fuel_spec (S (length buf)) buf ltac:(lia)) as Hs.
+  unfold rtr_decode in H. rewrite H in Hs. exact Hs.
+Qed.
+
+Lemma C03_rtr_complete_frame_decided : complete_frame_decided rtr_decode rtr_complete.
+Proof.
+  intros buf rest Hc H. pose proof (rtr_fuel_spec (S (length buf)) buf ltac:(lia)) as Hs.
+  unfold rtr_decode in H. rewrite H in Hs. destruct Hs as (_ & _ & Hl). exact (Hl Hc).
+Qed.
+
+Lemma C03_rtr_need_only_if_incomplete : need_only_if_incomplete rtr_decode rtr_complete.
+Proof.
+  intros buf rest H. pose proof (rtr_fuel_spec (S (length buf)) buf ltac:(lia)) as Hs.
+  unfold rtr_decode in H. rewrite H in Hs. destruct Hs as (Hn & Hu & _). split; assumption.
+Qed.
+
+(* ---- fuel does not matter once it exceeds the buffer length *)
+Lemma rtr_fuel_indep : forall f1 f2 src, (length src < f1)%nat -> (length src < f2)%nat ->
+  rtr_decode_fuel f1 src = rtr_decode_fuel f2 src.
+Proof.
+  induction f1 as [|f1 IH]; intros f2 src H1 H2; [lia|]. destruct f2 as [|f2]; [lia|].
+  cbn [rtr_decode_fuel]. pose proof (rtr_step_cases src) as Hc.
+  destruct (rtr_step src) as [r|rest]; [reflexivity|]. destruct Hc as [Hl _]. apply IH; lia.
+Qed.
+
+(* ---- a turn only looks at its own frame *)
 Lemma rtr_length_field_app buf ext l :
   rtr_length_field buf = Some l -> rtr_length_field (buf ++ ext) = Some l.
 Proof.
@@ -109,34 +166,67 @@ Proof.
   reflexivity.
 Qed.
 
-Lemma rtr_ext buf ext :
-  (forall m rest, rtr_decode buf = DMsg m rest -> rtr_decode (buf ++ ext) = DMsg m (rest ++ ext)) /\
-  (forall e rest, rtr_decode buf = DErr e rest -> rtr_decode (buf ++ ext) = DErr e (rest ++ ext)).
+Lemma rtr_step_ext src ext :
+  match rtr_step src with
+  | RsSkip rest => rtr_step (src ++ ext) = RsSkip (rest ++ ext)
+  | RsDone (DMsg m rest) => rtr_step (src ++ ext) = RsDone (DMsg m (rest ++ ext))
+  | RsDone (DErr e rest) => rtr_step (src ++ ext) = RsDone (DErr e (rest ++ ext))
+  | _ => True
+  end.
 Proof.
-  destruct (len buf <? 8) eqn:H8.
-  { unfold rtr_decode. rewrite H8. split; intros; discriminate. }
-  assert (H8' : (len (buf ++ ext) <? 8) = false) by (rewrite len_app; lia).
-  destruct (rtr_decode_unfold buf H8) as (l & Hl & ->).
-  destruct (rtr_decode_unfold (buf ++ ext) H8') as (l' & Hl' & ->).
+  destruct (len src <? 8) eqn:H8; [rewrite (rtr_step_short _ H8); exact I|].
+  assert (H8' : (len (src ++ ext) <? 8) = false) by (rewrite len_app; lia).
+  destruct (rtr_step_unfold src H8) as (l & Hl & ->).
+  destruct (rtr_step_unfold (src ++ ext) H8') as (l' & Hl' & ->).
   rewrite (rtr_length_field_app _ ext _ Hl) in Hl'. injection Hl' as <-.
-  unfold rtr_body.
-  destruct (l <? 8) eqn:HL.
-  { split; [intros; discriminate|]. intros e rest H. injection H as <- <-. reflexivity. }
-  destruct (len buf <? l) eqn:HB; [split; intros; discriminate|].
-  assert (HB' : (len (buf ++ ext) <? l) = false) by (rewrite len_app; lia).
-  rewrite HB'.
-  assert (Hn : (N.to_nat l <= length buf)%nat) by (pose proof (len_length buf); lia).
+  unfold step_body.
+  destruct (l <? 8) eqn:E8; [reflexivity|].
+  destruct (len src <? l) eqn:El; [exact I|].
+  assert (El' : (len (src ++ ext) <? l) = false) by (rewrite len_app; lia). rewrite El'.
+  assert (Hn : (N.to_nat l <= length src)%nat) by (pose proof (len_length src); lia).
   rewrite (firstn_app_le _ _ _ Hn), (skipn_app_le _ _ _ Hn).
-  destruct (rtr_from_bytes _) as [[m' l2]|]; split; intros ? ? H; try discriminate; injection H as <- <-; reflexivity.
+  destruct (nth_error _ 1) as [ty|]; [|exact I].
+  destruct (negb (is_used_type ty)); [reflexivity|].
+  destruct (rtr_from_bytes _) as [[m l2]|]; reflexivity.
+Qed.
+
+Lemma rtr_fuel_ext : forall fuel src ext, (length src < fuel)%nat ->
+  match rtr_decode_fuel fuel src with
+  | DMsg m rest => rtr_decode (src ++ ext) = DMsg m (rest ++ ext)
+  | DErr e rest => rtr_decode (src ++ ext) = DErr e (rest ++ ext)
+  | DNeed rest => rtr_decode (src ++ ext) = rtr_decode (rest ++ ext)
+  | DPanic => True
+  end.
+Proof.
+  induction fuel as [|f IH]; intros src ext Hf; [lia|].
+  cbn [rtr_decode_fuel]. pose proof (rtr_step_cases src) as Hc. pose proof (rtr_step_ext src ext) as He.
+  assert (Hun : rtr_decode (src ++ ext) =
+                match rtr_step (src ++ ext) with
+                | RsDone r => r
+                | RsSkip rest => rtr_decode_fuel (length (src ++ ext)) rest
+                end) by reflexivity.
+  destruct (rtr_step src) as [[m rest|rest|e rest|]|rest].
+  - rewrite Hun, He. reflexivity.
+  - destruct Hc as [-> _]. reflexivity.
+  - rewrite Hun, He. reflexivity.
+  - exact I.
+  - destruct Hc as [Hl _]. specialize (IH rest ext ltac:(lia)).
+    assert (Hfi : rtr_decode (src ++ ext) = rtr_decode (rest ++ ext)).
+    { rewrite Hun, He. unfold rtr_decode. apply rtr_fuel_indep; rewrite !app_length; lia. }
+    destruct (rtr_decode_fuel f rest) as [m r2|r2|e r2|]; rewrite ?Hfi; try exact IH.
 Qed.
 
 Theorem C03_rtr_fragmentation_invariant : fragmentation_invariant rtr_decode.
 Proof.
-  refine (stream_fragmentation_invariant rtr_decode _ _ _ _).
+  refine (stream_fragmentation_invariant rtr_decode _ _ _ _ _).
   - exact C03_rtr_decode_no_panic.
   - intros buf m rest H. exact (proj1 (C03_rtr_decode_consumes buf m rest H)).
-  - intros buf m rest ext. exact (proj1 (rtr_ext buf ext) m rest).
-  - intros buf e rest ext. exact (proj2 (rtr_ext buf ext) e rest).
+  - intros buf m rest ext H. pose proof (rtr_fuel_ext (S (length buf)) buf ext ltac:(lia)) as He.
+    unfold rtr_decode in H. rewrite H in He. exact He.
+  - intros buf e rest ext H. pose proof (rtr_fuel_ext (S (length buf)) buf ext ltac:(lia)) as He.
+    unfold rtr_decode in H. rewrite H in He. exact He.
+  - intros buf rest ext H. pose proof (rtr_fuel_ext (S (length buf)) buf ext ltac:(lia)) as He.
+    unfold rtr_decode in H. rewrite H in He. exact He.
 Qed.
 
 (* ---- what was wrong before the repair (model of the code at e40a5c0) *)
@@ -152,9 +242,9 @@ Qed.
 (* a complete Router Key PDU (type 9, 8 bytes announced, 8 buffered) is answered "need more" *)
 Lemma C03_rtr_v0_complete_frame_refuted : ~ complete_frame_decided rtr_decode_v0 rtr_complete.
 Proof.
-  intro H. apply (H [2; 9; 0; 1; 0; 0; 0; 8]).
-  - exists 8. split; [reflexivity|]. vm_compute. congruence.
-  - vm_compute. reflexivity.
+  intro H. specialize (H [2; 9; 0; 1; 0; 0; 0; 8] [2; 9; 0; 1; 0; 0; 0; 8]).
+  assert (Hc : rtr_complete [2; 9; 0; 1; 0; 0; 0; 8]) by (exists 8; split; [reflexivity|vm_compute; congruence]).
+  specialize (H Hc eq_refl). cbn [length] in H. lia.
 Qed.
 
 (* Non-vacuity: the repaired decoder does deliver messages. *)
